@@ -415,7 +415,11 @@ def builtin (f : Name) (args : List (V ω)) (kw : List (Name × V ω)) : Option 
          | .tuple _ => some (raiseX xUnsupported)       -- some hosts carry lists as tuples: never guessed
          | .py .other => some (raiseX xUnsupported)
          | _ => some (.ok (.bool false)))
-      else some (raiseX xUnsupported)
+      else
+        -- any other class, asked of a host object: the host knows (`isinstance(datastream, socket)`)
+        (match v with
+         | .host _ => Option.none
+         | _ => some (raiseX xUnsupported))
     | [_, .host _], [] => Option.none           -- a type (or tuple of types) that is a host object: the host decides
     | _, _ => some (raiseX xUnsupported)
   else if f = fInt then
